@@ -163,6 +163,8 @@ add("c09_unknown_size_equivalence", ["C09"], "wr.rs", "U", "deprecated write_unk
 for k in (1, 3):
     add("c09_flush_short_%d" % k, ["C09", "C10"], "wr.rs", "U", "private_flush into a destination accepting <= %d bytes per write: destination == buffer, buffer emptied" % k,
         "0..=7 buffered symbolic bytes", timeout_s=1200, mem_gb=8, stubs=WST, assumes=["destination accepts at least 1 byte per call (Write contract)"])
+add("c09_flush_short_2_of_5", ["C09", "C10"], "wr.rs", "U", "private_flush of exactly 5 buffered bytes into a destination accepting <= 2 bytes per write: destination == buffer, buffer emptied",
+    "5 symbolic bytes (concrete count)", timeout_s=900, mem_gb=8, stubs=WST, assumes=["destination accepts at least 1 byte per call (Write contract)"])
 for n, what in (("c10_stream_no_master", "no master open"), ("c10_stream_unknown_master", "one unknown-size master open"), ("c10_stream_known_master", "one known-size master open"),
                 ("c10_stream_unknown_in_known", "unknown-size master inside a known-size one"), ("c10_stream_known_in_unknown", "known-size master inside an unknown-size one")):
     add(n, ["C10"], "wr.rs", "U", "public write of a global binary element, %s: destination only extended; no known-size master open => buffer empty and element fully handed over; otherwise destination untouched and buffer extended" % what,
@@ -192,15 +194,16 @@ for n, d, tier in CH:
 # ---------------------------------------------------------------- header unit on spec Tree with a seeded stack
 TREE_A = ["Inv_stack/Inv_strict on the seeded stack: a valid chain of open masters over Tree, starts increasing and before the cursor, known ranges nested, cursor before every known end",
           "1-byte id and 1-2 byte size field (general header shapes are decided by hdr_flat_*)", "source at EOF, 20 bytes buffered behind the cursor"]
-for n, ch in (("hdr_tree_chain_empty", "no master open"), ("hdr_tree_chain_root", "[Root]"), ("hdr_tree_chain_root_a", "[Root, A]"), ("hdr_tree_chain_root_a_b", "[Root, A, B]"),
-              ("hdr_tree_chain_root_a2", "[Root, A2]"), ("hdr_tree_chain_root2", "[Root2]")):
+# depth >= 2 ([Root, A], [Root, A, B], [Root, A2]; symbolic or all-known sizes; with or without the validator call) was measured
+# intractable in the build round: 26-30 min, then a solver error beyond the 25-48 GB cap. Only depth 0 and 1 are registered.
+for n, ch in (("hdr_tree_chain_empty", "no master open"), ("hdr_tree_chain_root", "[Root]"), ("hdr_tree_chain_root2", "[Root2]")):
     add(n, ["C11", "C06", "C13", "C17", "C07"], "hdr_tree.rs", "U",
         "peek_valid_tag_header with open masters %s: accepted iff (id in spec | tolerated) and declared path matches the chain left after closing unknown-size masters (| tolerated) and extent inside every known-size ancestor (| tolerated) and size <= limit; "
         "each rejection carries its own kind, the offending id and offset" % ch,
         "every 1-byte id x every 1-2 byte size field; each open master known/unknown-size with symbolic extents; all 8 tolerance masks; limit any Option<usize>; base offset < 2^40",
         tier="quick" if n in ("hdr_tree_chain_empty",) else "thorough",
         timeout_s=5400, mem_gb=16, stubs=IO_HASH, big_stack=True, assumes=TREE_A)
-for n, ch in (("hdr_tree_known_root", "[Root]"), ("hdr_tree_known_root_a", "[Root, A]"), ("hdr_tree_known_root_a_b", "[Root, A, B]"), ("hdr_tree_known_root_a2", "[Root, A2]")):
+for n, ch in (("hdr_tree_known_root", "[Root]"),):
     add(n, ["C11", "C06", "C13", "C17"], "hdr_tree.rs", "U",
         "peek_valid_tag_header with KNOWN-size open masters %s: accepted iff (id in spec | tolerated) and declared path matches the chain (| tolerated) and extent inside every ancestor (| tolerated) and size <= limit; each rejection carries its own kind, id and offset" % ch,
         "every 1-byte id x every 1-2 byte size field; symbolic extents of the known-size masters; all 8 tolerance masks; limit any Option<usize>; base offset < 2^40",
@@ -224,3 +227,6 @@ RN_A = ["seeded state: open masters over Tree with consistent offsets (Inv_stack
 # pre-reserved queue. Only the variant that emits nothing is tractable:
 add("rn_eof_noclose_2", ["C04", "C06"], "rn.rs", "U", "read_next at (temporary) end of input with EOF closing disabled: nothing emitted, masters stay open", "2 masters, symbolic sizes/offsets",
     timeout_s=1200, mem_gb=10, stubs=IO_HASH, big_stack=True, assumes=RN_A)
+
+add("cut_b14_then_one_byte", ["C12", "C04", "C05"], "doc.rs", "S", "a 16-byte element exactly filling a capacity-16 buffer followed by ONE dangling byte: element emitted, then UnexpectedEOF at offset 16 with the id and no size (never a normal end)",
+    "14 symbolic payload bytes; capacity 16; slice source", timeout_s=1500, mem_gb=12, stubs=IO_HASH, big_stack=True, assumes=DOC_A)
